@@ -1394,11 +1394,13 @@ class FortranReaderBase:
         if is_cpp_directive:
             # CPP directive line
             lines = []
-            while line.rstrip().endswith("\\"):
+            while line is not None and line.rstrip().endswith("\\"):
                 # Line continuation
                 lines.append(line.rstrip()[:-1])
                 line = get_single_line()
-            lines.append(line)
+            if line is not None:
+                # (line is None if the input ended after a continuation)
+                lines.append(line)
             endlineno = self.linecount
             return self.cpp_directive_item("".join(lines), startlineno, endlineno)
 
